@@ -26,6 +26,7 @@ type env struct {
 
 	mu        sync.Mutex
 	overshoot map[string]int // per family: max(observed - limit)
+	dcEncOver int            // DNSCrypt UDP: max(encrypted datagram - limit), informational
 	closest   map[string]map[string]any
 	infra     int
 	samples   map[string]bool
@@ -201,7 +202,7 @@ func classifyWriteErr(s string) string {
 	case strings.Contains(s, "message too long"):
 		return "EMSGSIZE (datagram larger than UDP/IPv4 can carry)"
 	case strings.Contains(s, "buffer too large"):
-		return "packing refused: buffer too large"
+		return "packing refused (buffer too large)"
 	default:
 		return s
 	}
@@ -313,6 +314,65 @@ func (s *streamSession) roundTrip(wire []byte) (msg []byte, frameLen int, outcom
 	return nil, len(res.Trailing), out
 }
 
+// cellTrip sends the cell's request and obtains what the server sent for it.
+// On the plain stream transports the handler reports the result of WriteMsg,
+// so a response that the server refused to write is not waited for.
+func (s *streamSession) cellTrip(c *cell, ch chan hRecord, o *observation) (msg []byte, frameLen int, outcome string) {
+	if s.dc != nil {
+		msg, frameLen, outcome = s.roundTrip(c.wire)
+		select {
+		case rec := <-ch:
+			o.hrec = &rec
+		default:
+		}
+
+		return msg, frameLen, outcome
+	}
+
+	err := s.c.WriteFrame(c.wire)
+	if err != nil {
+		return nil, 0, "no-response: connection closed (write: " + err.Error() + ")"
+	}
+
+	wait := s.e.answerWait
+	select {
+	case rec := <-ch:
+		o.hrec = &rec
+	case <-time.After(s.e.reportWait):
+		// Not invoked: the connection is probably gone; a short read tells.
+		wait = time.Second
+	}
+
+	if o.hrec != nil && o.hrec.WriteErr != "" && !c.sh.Propagate {
+		// The server did not write the response and the handler swallowed
+		// the error: nothing is to come.  A sentinel shows what the client
+		// sees next on the connection.
+		outcome = "no-response: server-side write error: " + classifyWriteErr(o.hrec.WriteErr)
+		if problem := s.sentinel(c); problem != "" {
+			outcome += "; then " + problem
+		} else {
+			outcome += "; connection stays usable"
+		}
+
+		return nil, 0, outcome
+	}
+
+	res := s.c.Read(wait)
+	if res.Outcome == tbench.Answered {
+		return res.Responses[0], res.WireLens[0], answered
+	}
+
+	outcome = "no-response: connection " + string(res.Outcome)
+	if len(res.Trailing) > 0 {
+		outcome += fmt.Sprintf(" after %d bytes of an incomplete frame", len(res.Trailing))
+	}
+	if o.hrec != nil && o.hrec.WriteErr != "" {
+		outcome += " (server-side write error: " + classifyWriteErr(o.hrec.WriteErr) + ", propagated by the handler)"
+	}
+
+	return nil, len(res.Trailing), outcome
+}
+
 func sentinelQuery(id uint16) []byte {
 	sh := shape{Cell: 9999999, T: 0, Mix: "an", Kind: "txt"}
 
@@ -332,8 +392,7 @@ func (s *streamSession) sentinel(after *cell) (problem string) {
 	}
 
 	got, ok := idOf(msg)
-	m := &dns.Msg{}
-	if !ok || got != id || m.Unpack(msg) != nil || len(m.Question) != 1 {
+	if !ok || got != id || !wireComplete(msg) {
 		return fmt.Sprintf("the frame after the response is not the answer to the next query (%d bytes, starts %x)", len(msg), msg[:min(len(msg), 16)])
 	}
 
@@ -361,13 +420,7 @@ func (s *streamSession) exchange(c *cell) (o observation) {
 	defer s.e.h.forget(c.idx)
 
 	o.tries = 1
-	msg, frameLen, outcome := s.roundTrip(c.wire)
-	select {
-	case rec := <-ch:
-		o.hrec = &rec
-	default:
-	}
-
+	msg, frameLen, outcome := s.cellTrip(c, ch, &o)
 	if outcome != answered && outcome != "undecryptable" && o.hrec == nil {
 		// The request never reached the handler (e.g. the server had closed
 		// an idle connection): once more on a fresh connection.
@@ -375,16 +428,14 @@ func (s *streamSession) exchange(c *cell) (o observation) {
 		s.drop()
 		if err := s.ensure(); err == nil {
 			o.tries = 2
-			msg, frameLen, outcome = s.roundTrip(c.wire)
-			select {
-			case rec := <-ch:
-				o.hrec = &rec
-			default:
-			}
+			msg, frameLen, outcome = s.cellTrip(c, ch, &o)
 		}
 	}
 
 	o.outcome, o.msg, o.wireLen = outcome, msg, frameLen
+	if strings.HasSuffix(outcome, "connection stays usable") {
+		return o
+	}
 	if outcome != answered {
 		if outcome == "undecryptable" {
 			n, closed := s.rest()
@@ -396,8 +447,7 @@ func (s *streamSession) exchange(c *cell) (o observation) {
 	}
 
 	// The frame must be the answer to this request, complete.
-	m := &dns.Msg{}
-	if id, ok := idOf(msg); !ok || id != c.id || m.Unpack(msg) != nil {
+	if id, ok := idOf(msg); !ok || id != c.id || !wireComplete(msg) {
 		n, closed := s.rest()
 		o.framing = fmt.Sprintf("prefix announces %d bytes, which are not a complete DNS message with the request's ID (start %x); %d more bytes followed on the connection (closed=%t)",
 			frameLen, msg[:min(len(msg), 16)], n, closed)
@@ -521,9 +571,8 @@ func (s *doqSession) exchange(c *cell) (o observation) {
 	switch res.Outcome {
 	case tbench.Answered:
 		o.outcome, o.msg, o.wireLen = answered, res.Responses[0], res.WireLens[0]
-		m := &dns.Msg{}
 		id, ok := idOf(o.msg)
-		if len(res.Responses) != 1 || len(res.Trailing) != 0 || !ok || id != c.id || m.Unpack(o.msg) != nil {
+		if len(res.Responses) != 1 || len(res.Trailing) != 0 || !ok || id != c.id || !wireComplete(o.msg) {
 			total := len(res.Trailing)
 			for _, f := range res.Responses {
 				total += 2 + len(f)
